@@ -37,6 +37,16 @@ StripPos(t, vm) == IF t[1] = "T" THEN <<"T", t[2], Vid(vm, t[3]), <<>>>>
                    ELSE IF t[1] # "R" THEN t
                    ELSE <<"R", t[2], 0, [q \in DOMAIN t[4] |-> StripPos(t[4][q], vm)]>>
 
+\* language only (terminal-level expressions: the observation is whether lark's compiled pattern / the parser accepts)
+RECURSIVE JudgeLang(_, _, _)
+JudgeLang(obs, sent, k) ==
+  IF k > Len(obs) THEN "ok"
+  ELSE LET o == obs[k] IN
+       IF o.out = 0 /\ ~sent THEN o.cfg \o ":accepted-nonsentence"
+       ELSE IF o.out = 2 THEN o.cfg \o ":unexpected-exception"
+       ELSE IF o.out = 1 /\ sent /\ o.must THEN o.cfg \o ":rejected-sentence"
+       ELSE JudgeLang(obs, sent, k + 1)
+
 RECURSIVE JudgeObs04(_, _, _, _, _)
 JudgeObs04(exp, trees, cyclic, vm, k) ==
   IF k > Len(exp) THEN "ok"
@@ -166,6 +176,7 @@ Next ==
               ELSE IF Which = "C20" THEN JudgeObs20(inp.exp, trees, c.cyclic, inp.vmap, 1)
               ELSE IF Which = "C04" /\ c.cyclic THEN JudgeBnf(c.G, inp.exp, inp.w, 1)
               ELSE IF Which = "C04" THEN JudgeObs04(inp.exp, trees, c.cyclic, inp.vmap, 1)
+              ELSE IF Which = "LANG" THEN JudgeLang(inp.obs, trees # {}, 1)
               ELSE JudgeObs03(inp.obs, trees, trees # {}, 1)
      IN verdict' = Verdict(tid, ii + 1, v = "ok", v, IF c.cyclic THEN -1 ELSE Cardinality(trees))
   /\ UNCHANGED tid
